@@ -490,7 +490,7 @@ def main_check(prop: Prop, tier: str, seed: int, only_subs=None, jobs=16):
     if harness:
         evidence["coverage"]["harness_errors"] = harness[:5]
     os.makedirs(os.path.join(env.VERIF, "evidence"), exist_ok=True)
-    if only_subs is None:
+    if only_subs is None and not os.environ.get("VF_NO_EVIDENCE"):
         with open(os.path.join(env.VERIF, "evidence", f"{prop.pid}.json"), "w") as fh:
             json.dump(evidence, fh, indent=1, default=str)
 
